@@ -486,6 +486,15 @@ def mon_c15(spec, run):
     has_cb = spec.get("disconnect_cb", True)
     rexit = first_seq(tr, lambda e: e["k"] == "thread_exit" and e["th"] == "R", 10 ** 12)
     close_before = [c for c in closes if c["call"] < rexit]
+    if spec.get("kind") == "api_init":
+        # a close() the LIBRARY performs as the clean-up of a failing initialize() is a consequence of the failure, not a planned close by
+        # the user: once connect() had returned normally and the fault was read afterwards, only the user's own close() (YncaApi.close() from
+        # the scenario or from another thread) can stand for "the user ended the session first"
+        conn_ok = [c for c in cs if c["op"][0] == "connect" and c["exc"] is None and c["ret"] is not None and c["ret"] < f]
+        if conn_ok:
+            user = [e["seq"] for e in tr if e["k"] == "api_call" and e["op"] == "close" and e["seq"] < rexit]
+            user += [c["call"] for c in closes if not str(c.get("ctx", "")).startswith("api@") and c["call"] < rexit]
+            close_before = user
     if len(discs) > 1:
         bad.append(("twice", f"the disconnect callback was invoked {len(discs)} times"))
     if has_cb and not close_before and len(discs) == 0:
